@@ -1293,10 +1293,16 @@ class FrequencySpectrum(WaveSpectrum):
             new_frequencies = new_frequencies.values
 
         if method == "spline":
-            self.fillna(0.0)
+            # Fill missing values on a copy; the spectrum we interpolate from is
+            # left untouched.
+            filled = self.copy(deep=True)
+            filled.fillna(0.0)
             frequency_axis = self.dims.index(NAME_F)
             interpolated_data = cumulative_frequency_interpolation_1d_variable(
-                new_frequencies, self.dataset, frequency_axis=frequency_axis, **kwargs
+                new_frequencies,
+                filled.dataset,
+                frequency_axis=frequency_axis,
+                **kwargs,
             )
             object = FrequencySpectrum(interpolated_data)
             object.fillna(extrapolation_value)
